@@ -349,8 +349,8 @@ def model_task(p, tier, seed):
 
 def programs_for(tier, seed):
     if tier == "quick":
-        return [CP.P7(), CP.P3(), CP.P8(), CP.P15(), CP.P21(), CP.P22(), CP.P23(), CP.P24()]
-    return CP.all_fixed() + [CP.P21(), CP.P22(), CP.P23(), CP.P24()] + CP.presence_variants(CP.P3())[1:] + [CP.random_program(seed, i) for i in range(10)]
+        return [CP.P7(), CP.P3(), CP.P8(), CP.P15(), CP.P21(), CP.P22(), CP.P23(), CP.P24(), CP.P28()]
+    return CP.all_fixed() + [CP.P21(), CP.P22(), CP.P23(), CP.P24(), CP.P28()] + CP.presence_variants(CP.P3())[1:] + [CP.random_program(seed, i) for i in range(10)]
 
 
 def _dispatch(fn, args):
